@@ -11,6 +11,9 @@ Property theorems only. Model: `N2k.Acti` (`Model/Actisense.lean`, transcribing
 reported messages; `C17_split` shows that this is what any sequence of `ParseMessages` calls computes
 however the bytes are distributed over the calls. All theorems hold for both signednesses of `char`,
 every default source, every clock value and every (stale/uninitialised) buffer content.
+The time stamp of a decoded data frame is left open by the property: `Cfg.stampLocal` selects the embedded
+time (`false`, the library as it is) or the local receive time; `received c m` follows it and all
+theorems hold for both.
 
 Not covered: the forwarding policy of `NMEA2000.cpp` (`C17_forwarding` of the design) — forwarding
 calls `SendInActisenseFormat` unchanged, which is what these theorems are about.
@@ -26,7 +29,7 @@ writes a frame without leaving its buffer, and a freshly constructed reader (any
 these bytes reports exactly this message (time stamp modulo 2^32) and nothing is pending afterwards. -/
 theorem C17_roundtrip (c : Cfg) (buf0 : List Nat) (hb : buf0.length = maxBuf) (m : Msg) (hv : Valid m) :
     ∃ bytes s', sendInActisense m = .ok bytes ∧
-      feed c (RState.init buf0) bytes = .ok (s', [received m]) ∧ handling s' = false := by
+      feed c (RState.init buf0) bytes = .ok (s', [received c m]) ∧ handling s' = false := by
   obtain ⟨s', hf, hidle⟩ := frame_fed c (Reachable.init buf0 hb).inv (Or.inr rfl) hv
   exact ⟨_, s', encode_valid hv, hf, hidle.handling⟩
 
@@ -39,13 +42,13 @@ exactly these messages in order; the same through `ParseMessages`. -/
 theorem C17_roundtrip_concat (c : Cfg) (s : RState) (hs : Reachable s) (he : s.coming = false ∨ s.esc = false)
     (ms : List Msg) (hv : ∀ m ∈ ms, Valid m) :
     (∀ m ∈ ms, sendInActisense m = .ok (frame (bodyOf m))) ∧
-    ∃ s', feed c s (ms.flatMap fun m => frame (bodyOf m)) = .ok (s', ms.map received) ∧
+    ∃ s', feed c s (ms.flatMap fun m => frame (bodyOf m)) = .ok (s', ms.map (received c)) ∧
       parseAll c ((ms.flatMap fun m => frame (bodyOf m)).length + 1) s
-        (ms.flatMap fun m => frame (bodyOf m)) = .ok (s', [], ms.map received) ∧
+        (ms.flatMap fun m => frame (bodyOf m)) = .ok (s', [], ms.map (received c)) ∧
       (ms ≠ [] → handling s' = false) := by
   refine ⟨fun m hm => encode_valid (hv m hm), ?_⟩
   have key : ∀ (ms : List Msg) (s : RState), RInv s → (s.coming = false ∨ s.esc = false) → (∀ m ∈ ms, Valid m) →
-      ∃ s', feed c s (ms.flatMap fun m => frame (bodyOf m)) = .ok (s', ms.map received) ∧
+      ∃ s', feed c s (ms.flatMap fun m => frame (bodyOf m)) = .ok (s', ms.map (received c)) ∧
         (ms ≠ [] → handling s' = false) := by
     intro ms
     induction ms with
@@ -93,7 +96,7 @@ length (`decodeBody`, unfolded in `C17_reported_frame_consistent`). -/
 theorem C17_reader_safe (s : RState) (hs : Reachable s) (c : Cfg) (ro : Bool) (b : Nat) :
     ∃ s' k r, readerStep c ro s b = .ok (s', k, r) ∧ Reachable s' ∧
       (∀ m, r = some m → s.coming = true ∧ s.esc = true ∧ b = 0x03 ∧
-        decodeBody c.defaultSource c.now (s.buf.take s.pos) = some m) := by
+        decodeBody c.defaultSource c.now c.stampLocal (s.buf.take s.pos) = some m) := by
   obtain ⟨s', k, r, h1, _, h3, _⟩ := step_total c ro b hs.inv
   exact ⟨s', k, r, h1, Reachable.step c ro b k r hs h1, h3⟩
 
@@ -126,8 +129,8 @@ example : Reachable (RState.init (List.replicate maxBuf 0xA5)) := .init _ (by si
 message is reported) means: the type is 0x93/0x94, the length byte is `|body| - 3`, the last byte is
 the checksum of the others, the embedded data length is `m.len ≤ 223`, equals the number of payload
 bytes delivered and accounts for the whole frame. -/
-theorem C17_reported_frame_consistent (ds now : Nat) (body : List Nat) (m : Msg)
-    (h : decodeBody ds now body = some m) :
+theorem C17_reported_frame_consistent (ds now : Nat) (loc : Bool) (body : List Nat) (m : Msg)
+    (h : decodeBody ds now loc body = some m) :
     (body.getD 0 0 = 0x93 ∨ body.getD 0 0 = 0x94) ∧ body.length = body.getD 1 0 + 3 ∧
     body.getD (body.length - 1) 0 = checksum (body.take (body.length - 1)) ∧
     m.len ≤ 223 ∧ m.data.length = m.len ∧
@@ -179,7 +182,7 @@ theorem C17_reported_length_bounded (c : Cfg) (bytes : List Nat) : ∀ (s : RSta
         have : m = m0 := by simpa using hm
         subst this
         obtain ⟨_, _, _, hdec⟩ := hrep m rfl
-        have := C17_reported_frame_consistent _ _ _ _ hdec
+        have := C17_reported_frame_consistent _ _ _ _ _ hdec
         exact ⟨this.2.2.2.1, this.2.2.2.2.1⟩
     · exact ih s1 hr1 s2 ms2 hf2 m hm
 
@@ -194,16 +197,16 @@ theorem C17_reported_frames_in_stream (c : Cfg) (buf0 : List Nat) (hb : buf0.len
     (hfeed : feed c (RState.init buf0) pre = .ok (s1, ms))
     (hstep : readerStep c true s1 b = .ok (s', k, some m)) :
     ∃ p body, pre ++ [b] = p ++ [0x10, 0x02] ++ escAll body ++ [0x10, 0x03] ∧
-      decodeBody c.defaultSource c.now body = some m := by
+      decodeBody c.defaultSource c.now c.stampLocal body = some m := by
   obtain ⟨hg, hi⟩ := ghost_feed c pre (Ghost.init buf0) (Reachable.init buf0 hb).inv hfeed
   simpa using (ghost_step c hg hi hstep).2 m rfl
 
 -- the hypotheses are satisfiable: a concrete stream whose last byte makes a fresh reader report
 set_option maxRecDepth 100000 in
 example : ∃ s1 ms s' k m,
-    feed ⟨true, 65, 0⟩ (RState.init (List.replicate 300 0))
+    feed ⟨true, 65, 0, false⟩ (RState.init (List.replicate 300 0))
       [0x10, 0x02, 0x93, 0x0c, 2, 1, 0xf8, 1, 0xff, 7, 0, 0, 0, 0, 1, 0x55, 0x09, 0x10] = .ok (s1, ms) ∧
-    readerStep ⟨true, 65, 0⟩ true s1 3 = .ok (s', k, some m) := ⟨_, _, _, _, _, rfl, rfl⟩
+    readerStep ⟨true, 65, 0, false⟩ true s1 3 = .ok (s', k, some m) := ⟨_, _, _, _, _, rfl, rfl⟩
 
 /-! ## resynchronisation -/
 
@@ -212,7 +215,7 @@ has been collected, whatever other flags are set) the frame of a valid message i
 reader is idle. -/
 theorem C17_resync (s : RState) (hs : Reachable s) (he : s.coming = false ∨ s.esc = false) (c : Cfg) (m : Msg)
     (hv : Valid m) :
-    ∃ s', feed c s (frame (bodyOf m)) = .ok (s', [received m]) ∧ handling s' = false := by
+    ∃ s', feed c s (frame (bodyOf m)) = .ok (s', [received c m]) ∧ handling s' = false := by
   obtain ⟨s', hf, hidle⟩ := frame_fed c hs.inv he hv
   exact ⟨s', hf, hidle.handling⟩
 
@@ -225,7 +228,7 @@ bytes that contain no `<10><02>` — in particular stray `<10>` bytes directly i
 followed by the frame of a valid message yield exactly that message. -/
 theorem C17_resync_from_idle (s : RState) (hs : Reachable s) (hh : handling s = false) (c : Cfg)
     (g : List Nat) (hg : noStart g = true) (m : Msg) (hv : Valid m) :
-    ∃ s', feed c s (g ++ frame (bodyOf m)) = .ok (s', [received m]) ∧ handling s' = false := by
+    ∃ s', feed c s (g ++ frame (bodyOf m)) = .ok (s', [received c m]) ∧ handling s' = false := by
   obtain ⟨s', hf, hidle⟩ := frame_fed_idle c g hs.inv hh hg hv
   exact ⟨s', hf, hidle.handling⟩
 
@@ -238,7 +241,7 @@ the output is what the garbage produced followed by exactly this message. -/
 theorem C17_resync_after_garbage (s : RState) (hs : Reachable s) (c : Cfg) (g : List Nat) (last : Nat)
     (hl : g.getLast? = some last) (hne : last ≠ 0x10) (m : Msg) (hv : Valid m) :
     ∃ s1 outs s', feed c s g = .ok (s1, outs) ∧
-      feed c s (g ++ frame (bodyOf m)) = .ok (s', outs ++ [received m]) ∧ handling s' = false := by
+      feed c s (g ++ frame (bodyOf m)) = .ok (s', outs ++ [received c m]) ∧ handling s' = false := by
   obtain ⟨s1, outs, hf1, hi1, hesc⟩ := feed_total c g hs.inv
   obtain ⟨s', hf2, hidle⟩ := frame_fed c hi1 (Or.inr (hesc last hl hne)) hv
   exact ⟨s1, outs, s', hf1, by simp only [feed_append, hf1, hf2], hidle.handling⟩
@@ -248,7 +251,7 @@ example : ([0x10, 0x02, 0x93, 0x55] : List Nat).getLast? = some 0x55 ∧ (0x55 :
 /-- **C17_resync_second_frame.** From any reachable state, of two consecutive well-formed frames the
 second is returned (the first one may be lost if an escape was pending). -/
 theorem C17_resync_second_frame (s : RState) (hs : Reachable s) (c : Cfg) (m1 m2 : Msg) (hv2 : Valid m2) :
-    ∃ outs s', feed c s (frame (bodyOf m1) ++ frame (bodyOf m2)) = .ok (s', outs ++ [received m2]) ∧
+    ∃ outs s', feed c s (frame (bodyOf m1) ++ frame (bodyOf m2)) = .ok (s', outs ++ [received c m2]) ∧
       handling s' = false := by
   have hl : (frame (bodyOf m1)).getLast? = some 0x03 := by
     unfold frame; rw [List.getLast?_append]; rfl
